@@ -404,6 +404,20 @@ func c07EveryLocationExamined(r *core.Report) {
 					continue
 				}
 				n++
+				// the slice looped over is the slice that was read: not re-sliced or replaced in between
+				replaced := ""
+				ast.Inspect(f.Body, func(m ast.Node) bool {
+					if a2, ok := m.(*ast.AssignStmt); ok && a2 != as {
+						for _, l := range a2.Lhs {
+							if id, isId := core.Unparen(l).(*ast.Ident); isId && info.ObjectOf(id) == locs {
+								replaced = core.ExprStr(a2)
+							}
+						}
+					}
+					return true
+				})
+				r.Check(replaced == "", rule, fmt.Sprintf("%s#record-read@%d-locations-kept-as-read", f.Key, n), pos(r, c), "the locations of the record are examined as they were read",
+					"the slice of locations is replaced after the record was read ["+replaced+"]: entries cut away before the before / until / limit tests were applied to them are lost (a page that has to skip up to `before` inside this record comes back empty or jumps ahead)")
 				inLoop := func(x *core.GNode) bool {
 					if x.Kind != core.KEdge || x.Loop == nil {
 						return false
